@@ -474,7 +474,7 @@ def execute(case, L, *, sync=False, flav=None, susp=0, fault_kind="exc", cancel_
             rec.first_item = items_[:1]
         if tool == "await_each":
             from .instruments import LazyAw  # noqa: PLC0415
-            items_ = [LazyAw(rec, x) for x in items_]      # made one by one, as the tool asks for them
+            items_ = [LazyAw(rec, x, gen=len(items_) % 2 == 0) for x in items_]      # made one by one, as the tool asks for them
         elif tool == "any_iter" and par["aw"]:
             items_ = [Aw(rec, x) for x in items_]
         if par.get("alias") and i > 1:      # the very same iterator object at every position
